@@ -62,6 +62,9 @@ EXPLANATION = ('range validation agrees between runtimes and with the specificat
                'a frozen position token blocks decrease/close and does not block increase')
 
 
+TECHNIQUE = TECHNIQUE + '; complemented by Engine M (rustc MIR -> integer SMT, z3 5.1): Pinocchio decrease (locked position refused) and reposition handlers in handler mode'
+
+
 def run(ctx):
     # Engine M (handler mode) on the live Pinocchio handlers: locked positions cannot have liquidity removed or be re-ranged; re-ranging withdraws first, re-ranges, then adds
     from props import pino
